@@ -154,7 +154,32 @@ pub fn run_c07(case: &Case) -> Outcome {
     if unknown_accepts > 0 && !raw {
         viol!(a, "c07-unknown-accept", "{unknown_accepts} streams accepted that nobody requested");
     }
+    // pending bind requests are flows in use: a colliding Connect of the peer must leave them undisturbed
+    let mut bind_collision = false;
+    for (k, b) in case.binds.iter().enumerate() {
+        let tag = format!("b{k}.").into_bytes();
+        let sent = run.events.iter().enumerate().find_map(|(i, e)| if let Ev::Sent { side, msg: WMsg::Frame(RFrame::Bind { id, host, .. }), .. } = &e.ev { if *side == b.side && host.starts_with(&tag) { Some((i, *id)) } else { None } } else { None });
+        let Some((sent_at, id)) = sent else { continue };
+        let answer = run.app_events().find_map(|(_, e)| if let AppEv::BindSeen { host, answer, .. } = e { if host.starts_with(&tag) { Some(answer.clone()) } else { None } } else { None });
+        let resolved = run.events.iter().enumerate().find_map(|(i, e)| if let Ev::App(AppEv::BindResolved { idx, result, .. }) = &e.ev { if *idx == k { Some((i, result.clone())) } else { None } } else { None });
+        let until = resolved.as_ref().map(|r| r.0).unwrap_or(run.events.len());
+        let hit = run.events[sent_at..until].iter().any(|e| matches!(&e.ev, Ev::Recv { side, msg: WMsg::Frame(RFrame::Connect { id: c, .. }) } if *side == b.side && *c == id));
+        bind_collision |= hit;
+        match (&resolved, answer.as_deref()) {
+            (Some((_, Err(e))), _) => viol!(a, "c07-pending-bind-disturbed", "bind request {k} (flow {id:08x}) failed with {e} on a live connection{}", if hit { " after the peer proposed its flow id in a Connect" } else { "" }),
+            (Some((_, Ok(false))), Some("Accept" | "Hold")) | (Some((_, Ok(false))), None) => viol!(a, "c07-pending-bind-disturbed", "bind request {k} (flow {id:08x}) resolved false although the peer application's decision was {answer:?}{}", if hit { "; the peer proposed its flow id in a Connect meanwhile" } else { "" }),
+            (Some((_, Ok(true))), ans) if ans != Some("Accept") => viol!(a, "c07-pending-bind-disturbed", "bind request {k} (flow {id:08x}) resolved true although the peer application's decision was {ans:?}"),
+            (None, Some("Accept" | "Reject")) => viol!(a, "c07-pending-bind-disturbed", "bind request {k} (flow {id:08x}) never resolved although the peer application answered {answer:?}"),
+            _ => {}
+        }
+    }
+    if bind_collision {
+        forced = true;
+    }
     let mut cl = vec![];
+    if bind_collision {
+        cl.push("connect-on-id-of-pending-bind");
+    }
     if forced {
         cl.push("forced-collision-or-rejection");
     }
@@ -173,10 +198,18 @@ fn small_ids() -> impl Strategy<Value = Vec<u32>> {
 
 fn c07_real() -> impl Strategy<Value = Case> {
     let sh = Shape { max_streams: 5, max_wops: 3, allow_empty: false, allow_drop: false, complete: true, small_windows: true, max_sched: 300 };
-    (opts(true), opts(true), 1usize..=4, 1usize..=4, small_ids(), small_ids(), prop::collection::vec((stream_spec(sh), prop::collection::vec(any::<u8>(), 0..300)), 1..=5), schedule(300)).prop_map(
-        |(mut o0, mut o1, r0, r1, ids0, ids1, streams, schedule)| {
+    // 0-2 bind requests share the id scripts: a pending bind request is a flow in use, so a peer Connect on its id must be
+    // rejected without disturbing it
+    let binds = prop::collection::vec((0usize..2, any::<bool>(), 0u8..3), 0..=2);
+    let answer = prop_oneof![2 => Just(BindAnswer::Hold), 2 => Just(BindAnswer::Accept), 1 => Just(BindAnswer::Reject)];
+    (opts(true), opts(true), 1usize..=4, 1usize..=4, small_ids(), small_ids(), prop::collection::vec((stream_spec(sh), prop::collection::vec(any::<u8>(), 0..300)), 1..=5), (schedule(300), binds, prop::collection::vec(answer, 2))).prop_map(
+        |(mut o0, mut o1, r0, r1, ids0, ids1, streams, (schedule, binds, answers))| {
             o0.retries = r0;
             o1.retries = r1;
+            o0.bind_buf = 4;
+            o1.bind_buf = 4;
+            let binds: Vec<BindSpec> = binds.into_iter().map(|(side, dgram, delay)| BindSpec { side, dgram, host: b"h".to_vec(), port: 7, delay }).collect();
+            let bp = BindPolicy { answers, batch: 1, order: vec![], enabled: true };
             let streams = streams
                 .into_iter()
                 .map(|(mut s, pad)| {
@@ -187,7 +220,7 @@ fn c07_real() -> impl Strategy<Value = Case> {
                     s
                 })
                 .collect();
-            Case { opts: [o0, o1], rng: [ids0, ids1], streams, schedule, ..Case::default() }
+            Case { opts: [o0, o1], rng: [ids0, ids1], streams, schedule, binds, bind_policy: [bp.clone(), bp], ..Case::default() }
         },
     )
 }
@@ -286,7 +319,7 @@ pub fn run_c07_raw(case: &Case) -> Outcome {
 }
 
 pub fn c07(ctx: &Ctx, rep: &mut Report) {
-    rep.rule = "concurrent opens from both sides with arbitrary host bytes (0..300) and ports, max_flow_id_retries 1..4, scripted id sequences over {0,1,2,3} (collisions with live flows, with the peer's simultaneous choice, id 0); \
+    rep.rule = "concurrent opens from both sides with arbitrary host bytes (0..300) and ports, max_flow_id_retries 1..4, scripted id sequences over {0,1,2,3} (collisions with live flows - established streams, pending stream requests and pending bind requests -, with the peer's simultaneous choice, id 0); \
                 a raw peer that rejects the first k Connects and injects Connects with id 0 / live ids; a non-reading-peer family for the initial credit. Oracle: one request = one accepted stream with exactly the requested host/port, \
                 no Connect with id 0 or a live id, Reset for id 0 / in-use ids, exactly min(k+1,retries) attempts and FlowIdRejected iff k >= retries, initial credit == advertised window. \
                 Non-trivial = a forced collision/rejection occurred or >= 2 opens were in flight at once. Distinct = distinct case value."
@@ -640,9 +673,9 @@ fn c15_case() -> impl Strategy<Value = Case> {
         0usize..3,
         prop_oneof![3 => Just(None), 1 => (0u32..120, 0usize..4).prop_map(Some)],
         schedule(300),
-        1usize..=4,
+        (1usize..=4, any::<bool>()),
     )
-        .prop_map(|(mut o0, mut o1, binds, p0, p1, streams, ndg, end, schedule, bbuf)| {
+        .prop_map(|(mut o0, mut o1, binds, p0, p1, streams, ndg, end, schedule, (bbuf, small_ids))| {
             let binds: Vec<BindSpec> = binds.into_iter().map(|(side, dgram, mut host, port, delay)| {
                 if host.len() % 4 != 0 {
                     host.truncate(6);
@@ -666,7 +699,17 @@ fn c15_case() -> impl Strategy<Value = Case> {
                     },
                 }],
             };
-            Case { opts: [o0, o1], binds, bind_policy: [p0, p1], streams, dgrams, dg_readers: [DgReader::Eager, DgReader::Eager], events, schedule, ..Case::default() }
+            // half of the cases draw all flow ids of both sides from the same short list, so that a stream request of one side
+            // proposes the id of a bind request the other side still has pending (a colliding Connect must be rejected
+            // without disturbing the request) and ids are reused after requests are resolved
+            let rng = if small_ids {
+                o0.retries = 12;
+                o1.retries = 12;
+                [(1..=12).collect(), (1..=12).collect()]
+            } else {
+                [vec![], vec![]]
+            };
+            Case { opts: [o0, o1], binds, bind_policy: [p0, p1], streams, dgrams, dg_readers: [DgReader::Eager, DgReader::Eager], events, schedule, rng, ..Case::default() }
         })
 }
 
@@ -815,7 +858,19 @@ pub fn run_c15(case: &Case) -> Outcome {
     if case.bind_policy.iter().any(|p| !p.enabled) {
         cl.push("binds-disabled-on-a-side");
     }
-    Outcome::pass(out_of_order || raced, cl)
+    // a Connect of the peer that proposed the flow id of a bind request still pending at that moment
+    let mut collided = false;
+    for (k, w) in &wire {
+        let end_idx = resolved.get(k).and_then(|r| r.first()).map(|r| r.1).unwrap_or(usize::MAX);
+        let side = case.binds[*k].side;
+        if run.events.iter().enumerate().any(|(i, e)| i > w.4 && i < end_idx && matches!(&e.ev, Ev::Recv { side: s, msg: WMsg::Frame(RFrame::Connect { id, .. }) } if *s == side && *id == w.0)) {
+            collided = true;
+        }
+    }
+    if collided {
+        cl.push("connect-collides-with-pending-bind");
+    }
+    Outcome::pass(out_of_order || raced || collided, cl)
 }
 
 /// reuse probe: the id of a resolved bind is proposed again by the next open
@@ -844,9 +899,9 @@ pub fn run_c15_reuse(case: &Case) -> Outcome {
 }
 
 pub fn c15(ctx: &Ctx, rep: &mut Report) {
-    rep.rule = "1-6 concurrent bind requests from either side (both types, hosts 0..300 bytes, all ports), responder policies {accept, reject, drop, hold} answered in batches in a generated permutation, binds disabled on a side, interleaved stream and datagram traffic, optional connection end at a generated step; \
+    rep.rule = "1-6 concurrent bind requests from either side (both types, hosts 0..300 bytes, all ports), responder policies {accept, reject, drop, hold} answered in batches in a generated permutation, binds disabled on a side, interleaved stream and datagram traffic (in half of the cases all flow ids of both sides come from one short list, so stream requests collide with pending bind requests), optional connection end at a generated step; \
                 oracle: each request resolves at most once and (unless legitimately held) exactly once, true iff the peer application accepted that very request (matched by host tag and flow id on the wire), false for reject/drop/disabled, false or Closed after connection end; the responder sees exactly the requested type/host/port/flow id; \
-                reuse probe: the id is proposed again by the next open. Non-trivial = >= 2 requests answered out of order, or an answer racing with teardown. Distinct = distinct case value."
+                reuse probe: the id is proposed again by the next open. Non-trivial = >= 2 requests answered out of order, an answer racing with teardown, or a peer Connect on the id of a pending request. Distinct = distinct case value."
         .into();
     rep.assumptions = sim_assumptions();
     rep.assumptions.push("the responder drops a BindRequest only as the 'drop' answer; after reply() the request object is kept until the responder ends (BindRequest::drop always sends a Reset, documented behaviour)".into());
@@ -881,7 +936,7 @@ pub fn c15(ctx: &Ctx, rep: &mut Report) {
 fn c11_case() -> impl Strategy<Value = Case> {
     let dg = (
         0usize..2,
-        prop_oneof![2 => Just(0u32), 2 => 0u32..4, 2 => any::<u32>()],
+        prop_oneof![1 => Just(0u32), 4 => 0u32..8, 1 => any::<u32>()],
         prop_oneof![3 => prop::sample::select(vec![0u16, 1, 2, 254, 255, 256, 300]), 3 => 0u16..=300, 3 => 3u16..20],
         prop_oneof![prop::sample::select(vec![0u16, 1, 53, 65535]), any::<u16>()],
         prop_oneof![6 => prop::sample::select(vec![0u32, 1, 2, 3, 4, 5]), 2 => Just(100u32), 1 => Just(1500u32), 1 => Just(65_535u32)],
@@ -899,6 +954,9 @@ fn c11_case() -> impl Strategy<Value = Case> {
             streams,
             events: vec![RawEvent { when: Trigger::Quiescent, what: What::Wake(1) }],
             schedule,
+            // the streams get small flow ids (disjoint per side) so that datagram flow ids 1..7 coincide with open streams:
+            // datagrams share the id space but must never disturb a stream with the same id
+            rng: [vec![1, 3, 5, 7], vec![2, 4, 6]],
             ..Case::default()
         }
     })
@@ -1001,12 +1059,20 @@ pub fn run_c11(case: &Case) -> Outcome {
     }
     if !case.streams.is_empty() {
         cl.push("with-stream-traffic");
+        // a Datagram frame on the wire whose flow id is that of a stream opened on this connection
+        let stream_ids: std::collections::HashSet<u32> = run.events.iter().filter_map(|e| if let Ev::Sent { msg: WMsg::Frame(RFrame::Connect { id, .. }), .. } = &e.ev { Some(*id) } else { None }).collect();
+        if run.events.iter().any(|e| matches!(&e.ev, Ev::Sent { msg: WMsg::Frame(RFrame::Datagram { id, .. }), .. } if stream_ids.contains(id))) {
+            cl.push("datagram-id-equals-stream-id");
+            if overflow {
+                cl.push("overflow-with-shared-id");
+            }
+        }
     }
     Outcome::pass(boundary || overflow, cl)
 }
 
 pub fn c11(ctx: &Ctx, rep: &mut Report) {
-    rep.rule = "1-24 datagrams from either side over the full field domain (flow ids incl. 0, host length 0..300, all ports, payload length {0..5,100,1500,65535}), datagram_buffer_size in {1,2,8,512}, receivers eager / idle during the burst / intermittent, 0-2 complete streams on the same connection; \
+    rep.rule = "1-24 datagrams from either side over the full field domain (flow ids incl. 0 and the ids of the streams open on the same connection, host length 0..300, all ports, payload length {0..5,100,1500,65535}), datagram_buffer_size in {1,2,8,512}, receivers eager / idle during the burst / intermittent, 0-2 complete streams on the same connection; \
                 oracle: host > 255 refused with DatagramHostTooLong and nothing on the wire, received list is a subsequence of the sent list with all four fields equal, loss only on buffer overflow (idle receiver: exactly the first `capacity`), the connection never ends and streams complete with C02/C03/C05 oracles. \
                 Non-trivial = a host or payload at a boundary (host 0/1/255/>255, payload 0-3) or a burst larger than the buffer. Distinct = distinct case value."
         .into();
